@@ -97,6 +97,9 @@ class SinkHooks(Hooks):
         if d.startswith('ST::string_stream::append_char(char, unsigned long)'):
             st.ev('sink', 'ss-append_char', inst, list(args))
             return [(st, args[0])]
+        r = self.std_string(I, st, inst, d, args)
+        if r is not None:
+            return r
         mt = re.search(r'ST::(utf8_to_wchar|utf8_to_utf16|utf8_to_utf32|utf8_to_latin_1)(?:<[\w ]+>)?\(char const\*, unsigned long', d)
         if mt and len(args) >= 3:
             elt = {'utf8_to_wchar': 'wchar_t', 'utf8_to_utf16': 'char16_t', 'utf8_to_utf32': 'char32_t', 'utf8_to_latin_1': 'char'}[mt.group(1)]
@@ -106,6 +109,64 @@ class SinkHooks(Hooks):
             st.ev('conv', mt.group(1), inst, list(args[1:]), tag if ok else None)
             return [(st, None)]
         return None
+
+
+def _std_string(self, I, st, inst, d, args):
+    """A std::basic_string used as a block of fill units (a member of the writer or a local): its size and which ranges were set to
+    which value *in this call* are tracked; the contents it had before the call are whatever an earlier call left."""
+    mt = re.match(r'^std::__cxx11::basic_string<(char|wchar_t|char16_t|char32_t), .*?>::(size|length|resize|assign|data|c_str|clear|basic_string|~basic_string)\(([^)]*)\)', d)
+    if not mt or not args or not isinstance(args[0], PtrV) or args[0].obj is None or args[0].off.t:
+        return None
+    op, sig = mt.group(2), mt.group(3)
+    key = (args[0].obj, args[0].off.c)
+    tab = dict(st.flags.get('sstr') or {})
+    rec = dict(tab.get(key) or {})
+    if 'size' not in rec:
+        if op == 'basic_string':
+            rec['size'] = ZERO
+        else:
+            a = 'strsize(%s+%d)' % key
+            st.rng[a] = (0, MAXLEN)
+            rec['size'] = Lin.atom(a)           # what an earlier call left
+        rec['fills'] = ()
+        rec['prev'] = rec['size']
+    out = None
+    if op in ('size', 'length'):
+        out = [(st, IntV(64, rec['size'], 'u'))]
+    elif op in ('data', 'c_str'):
+        tag = 'SSTR:%s+%d' % key
+        if tag not in st.objs:
+            o = Obj('ext', None)
+            o.lazy = True
+            st.objs[tag] = o
+        st.ev('sstr-data', inst, key)
+        out = [(st, PtrV(tag, ZERO))]
+    elif op == 'clear':
+        rec['size'], rec['fills'] = ZERO, ()
+        out = [(st, None)]
+    elif op in ('resize', 'assign') and len(args) == 3 and isinstance(args[1], IntV):
+        n = I.as_u(st, args[1])
+        lo = ZERO if op == 'assign' else rec['size']
+        rec['fills'] = tuple(rec['fills']) + ((lo, n, args[2]),)
+        rec['size'] = n
+        out = [(st, args[0] if op == 'assign' else None)]
+    elif op == 'basic_string' and sig.startswith('unsigned long, ') and len(args) >= 3 and isinstance(args[1], IntV):
+        n = I.as_u(st, args[1])
+        rec['fills'] = ((ZERO, n, args[2]),)
+        rec['size'] = n
+        out = [(st, None)]
+    elif op == 'basic_string' and sig == '':
+        out = [(st, None)]
+    elif op == '~basic_string':
+        out = [(st, None)]
+    if out is None:
+        return None
+    tab[key] = rec
+    st.flags['sstr'] = tab
+    return out
+
+
+SinkHooks.std_string = _std_string
 
 
 def writer_scene(I, st):
@@ -459,7 +520,44 @@ def append_chars(run, m, F, E):
             elif o.kind == 'ret':
                 nr += 1
                 if wi < 0 and sinks_all and s2.is_eq0(C) is not True:
-                    und.append('emits without a loop: not the one-unit-per-iteration idiom')
+                    # a run written in one piece from a block of fill units (a std::basic_string): the units handed over must have
+                    # been set to ch in this call - a block kept between calls holds what an earlier call put there
+                    blk = [e for e in sinks_all if e[1] == 'write' and len(e[3]) >= 3 and isinstance(e[3][1], PtrV) and str(e[3][1].obj).startswith('SSTR:')]
+                    one = [e for e in sinks_all if e[1] in ('put', 'fputc')]
+                    if len(blk) == 1 and len(sinks_all) == 1 and isinstance(blk[0][3][2], IntV):
+                        a = blk[0][3]
+                        ln = I.as_u(s2, a[2])
+                        key9 = tuple(str(a[1].obj)[5:].rsplit('+', 1))
+                        rec = (s2.flags.get('sstr') or {}).get((key9[0], int(key9[1]))) or {}
+                        w9 = differs(s2, ln - C)
+                        if w9 == '?' or s2.is_eq0(a[1].off) is not True:
+                            und.append('a block write whose start / length is not decided to be the whole run')
+                        elif w9 is not None:
+                            probs.append('writes %r units of the fill block where the call asked for count%s' % (ln, '; witness ' + own.fmt_env(w9) if w9 else ''))
+                        else:
+                            full = [fl for fl in rec.get('fills', ()) if is_ch(s2, fl[2]) and s2.is_eq0(fl[0]) is True and s2.is_ge0(fl[1] - ln) is True]
+                            if full:
+                                pass
+                            else:
+                                # the first unit not set in this call: position 0 when the block was not empty before
+                                prev = rec.get('prev')
+                                stale_from = [fl for fl in rec.get('fills', ()) if is_ch(s2, fl[2])]
+                                env = None
+                                if prev is not None and prev.t:
+                                    env = s2.find_model([prev, ln], lambda v: v[0] >= 1 and v[1] >= 1)
+                                if env is not None:
+                                    probs.append('writes count units of a fill block that is kept between calls, of which only the units from its previous '
+                                                 'size on %s set to ch in this call: the units below keep the fill character of an earlier call; witness %s' %
+                                                 ('were' if stale_from else 'would have been', own.fmt_env(env)))
+                                else:
+                                    und.append('a block write from a string whose contents are not decided to be count copies of ch')
+                    elif len(one) == 1 and len(sinks_all) == 1 and s2.is_eq0(C - 1) is True:
+                        a = one[0][3]
+                        unit = a[0] if one[0][1] == 'fputc' else a[1]
+                        if not is_ch(s2, unit):
+                            probs.append('emits %r for a run of one, not the character of the call' % (unit,))
+                    else:
+                        und.append('emits without a loop: not the one-unit-per-iteration idiom')
         if cls != 'string_format_writer' and nb == 0:
             und.append('no emitting iteration explored')
         if nr == 0:
